@@ -323,10 +323,13 @@ def r2_cycle_flag(run, w, sc):
       continue
     n_rets += 1
     raw, at = deref_at(one, cfg, du, n.id, r.value)
-    ok = isinstance(raw, ast.Call) and endswith(dotted(raw.func), "RaisedException") and \
-        bool(raw.args) and \
-        du.flows_from(lambda x: isinstance(x, ast.Call) and dotted(x.func) == "sys.exc_info",
-                      raw.args[0])
+    err = None
+    if isinstance(raw, ast.Call) and endswith(dotted(raw.func), "RaisedException"):
+      ri = w.repo.funcs.get("objtypes.RaisedException.__init__")
+      err = call_arg(raw, ri, ri.params()[1]) if ri is not None else \
+          (raw.args[0] if raw.args else None)
+    ok = err is not None and \
+        du.flows_from(lambda x: isinstance(x, ast.Call) and dotted(x.func) == "sys.exc_info", err)
     run.ob(R2, one.qualname, "except: ... return objtypes.RaisedException(<the caught error>, ...)",
            "the value stored for a failed cell wraps the exception "
            "that was actually raised (here: the CircularRefError)", ok, fi=one.fi, node=r,
